@@ -10,7 +10,7 @@
                          needs_parens_in_unary, needs_parens_in_postfix, lambda_body_needs_parens;
      fx_quote            the string-quoting repair (double quotes unless the string contains one; no
                          escaping — the grammar has no escapes), proposed by property C05's builder;
-     fx_dominus          fixes/C07-do-minus.diff: a do-block statement after the first whose text starts
+     fx_dominus          fixes/C07-leading-minus.diff: a do-block statement after the first whose text starts
                          with `-` is parenthesised (a newline does not end an expression that can
                          continue with an infix operator).
 
@@ -440,7 +440,8 @@ Section Print.
         "(" ++ sjoin ", " ((fix go (l : list (list item)) : list string :=
                               match l with [] => [] | g :: r => seq g :: go r end) args) ++ ")"
     end.
-  Definition items_text7 (l : list item) : string := sconcat (map item_text7 l).
+  Fixpoint items_text7 (l : list item) : string :=
+    match l with [] => "" | x :: r => item_text7 x ++ items_text7 r end.
 End Print.
 Local Close Scope string_scope.
 
@@ -685,9 +686,14 @@ Definition show_classes (l : list kcls) : string :=
   | ks => sjoin "," (map kcls_name ks)
   end.
 
+(* the classes of the i-th statement of a program: a statement after another one whose printed form
+   starts with `-` continues that statement (at the top level exactly as inside a do-block) *)
+Definition statement_classes (i : nat) (e : expr) : list kcls :=
+  cls_if (negb (Nat.eqb i 0) && starts_neg_expr e) KDoMinus ++ known_classes e.
+
 (* one PRINT correspondence line: hex(text) | predicted round trip | classes *)
-Definition show_print (fx : fixes) (e : expr) : string :=
+Definition show_print (fx : fixes) (i : nat) (e : expr) : string :=
   hex_of_string (print_text fx (policy_of fx gen_opinfo) num_text e) ++ "|" ++
   (if predict_rt fx gen_opinfo num_text e then "SAME" else "NOTSAME") ++ "|" ++
-  show_classes (known_classes e).
+  show_classes (statement_classes i e).
 Local Close Scope string_scope.
